@@ -27,7 +27,7 @@ Elem0 == {C!At("i0"), C!At("i1"), C!At("true"), C!At("f0"), C!At("fm0"), C!At("f
           <<"complex", "fm0", "nan">>}
 Level1 == C!Tuples(Elem0, 2) \cup C!Sets(Elem0, 2)
 Elem1 == {<<"tuple", <<>>>>, <<"tuple", <<C!At("i1")>>>>, <<"tuple", <<C!At("nan")>>>>, <<"tuple", <<C!At("f0"), C!At("fm0")>>>>,
-          <<"frozenset", {}>>, <<"frozenset", {C!At("i1"), C!At("true")}>>, <<"frozenset", {C!At("nan")}>>, <<"frozenset", {C!At("sa"), C!At("ba")}>>}
+          <<"frozenset", {}>>, <<"frozenset", {C!At("i1"), C!At("f0")}>>, <<"frozenset", {C!At("nan")}>>, <<"frozenset", {C!At("sa"), C!At("ba")}>>}
 Level2 == C!Tuples(Elem1 \cup {C!At("i1"), C!At("f1"), C!At("nan")}, 2) \cup C!Sets(Elem1 \cup {C!At("i1")}, 2)
 
 Terms == Level0 \cup (IF Depth >= 1 THEN Level1 ELSE {}) \cup (IF Depth >= 2 THEN Level2 ELSE {})
